@@ -21,7 +21,8 @@ instance used by the driver and by the `_cex` theorems (PEP 440 public and local
 `Cfg` carries the two deviation parameters of DESIGN §4.  `current` is the code today, i.e. after the three `fix:`
 commits of /repo (e2ec6b7: `validateFirstPin := true`, a pin is validated before it is looked at at all – findings
 C20-F1, F2, F4; d07dfc5 refined by 5d02a52: `specPats := "," ">" "<" "~=" "!="`, substring patterns, so that a version
-epoch such as `==1!2.0` is not rejected – finding C20-F3).  `Cfg.preFix` is the shape before them
+epoch such as `==1!2.0` is not rejected – finding C20-F3; ed5a646: `stripBom := true`, files are read with `utf-8-sig` –
+finding C20-F8, pre-fix shape `Cfg.preBomFix`).  `Cfg.preFix` is the shape before them
 (`validateFirstPin := false`, `specPats := "," ">" "<"`); the `_regress_` theorems are stated against it.
 -/
 namespace PsModel.C20
@@ -38,15 +39,21 @@ structure Cfg where
   /-- the patterns of `any(spec in pkg for spec in (…))` (l.88): a line containing one of them as a substring is
   rejected -/
   specPats : List Str
+  /-- the files are opened with `encoding="utf-8-sig"` (l.67): a byte-order mark at the start of a file is dropped by
+  the decoder; with plain `"utf-8"` it stays in the first line -/
+  stripBom : Bool
 deriving DecidableEq, Repr
 
 /-- parameter values matching the code today (the correspondence check is what certifies them) -/
 def current : Cfg :=
-  { validateFirstPin := true, specPats := [[','], ['>'], ['<'], ['~', '='], ['!', '=']] }
+  { validateFirstPin := true, specPats := [[','], ['>'], ['<'], ['~', '='], ['!', '=']], stripBom := true }
+
+/-- today's code before `fix:` ed5a646 (finding C20-F8): files read with `encoding="utf-8"` -/
+def Cfg.preBomFix : Cfg := { current with stripBom := false }
 
 /-- before the two `fix:` commits: the first pin is never validated (l.102–103 absent) and the rejection test is
 `"," in pkg or ">" in pkg or "<" in pkg` -/
-def Cfg.preFix : Cfg := { validateFirstPin := false, specPats := [[','], ['>'], ['<']] }
+def Cfg.preFix : Cfg := { validateFirstPin := false, specPats := [[','], ['>'], ['<']], stripBom := false }
 
 /-- `UNPINNED_VERSION` -/
 def UNP : Str := Gen.UNPINNED_VERSION.toList
@@ -217,10 +224,22 @@ order `glob` returned them (the order of `files`) -/
 def selectFiles (paths : List String) (files : List File) : List File :=
   paths.flatMap (fun p => files.filter (fun f => dirMatch (patComps p.toList) f.dir))
 
-def fileLines (f : File) : List (Nat × Str) := f.lines.map (fun l => (f.id, l))
+/-- U+FEFF, what the three bytes EF BB BF decode to under plain utf-8 -/
+def BOM : Char := '\uFEFF'
 
-def allLines (files : List File) : List (Nat × Str) :=
-  (selectFiles Gen.REQUIREMENTS_PATHS files).flatMap fileLines
+/-- the decoder: `File.lines` are the lines of the file decoded as plain utf-8 (a byte-order mark, if the file has
+one, is the first character of the first line); `utf-8-sig` drops it -/
+def decodeLines (cfg : Cfg) (lines : List Str) : List Str :=
+  if cfg.stripBom then
+    match lines with
+    | (c :: l) :: ls => if c = BOM then l :: ls else lines
+    | _ => lines
+  else lines
+
+def fileLines (cfg : Cfg) (f : File) : List (Nat × Str) := (decodeLines cfg f.lines).map (fun l => (f.id, l))
+
+def allLines (cfg : Cfg) (files : List File) : List (Nat × Str) :=
+  (selectFiles Gen.REQUIREMENTS_PATHS files).flatMap (fileLines cfg)
 
 /-! ## install decision (`install_requirements`) -/
 
